@@ -177,16 +177,12 @@ struct Exec {
         bool upper = true, lower = true, diag = true;
         for (int j = 0; j < n; ++j) { if (U[j][j] % P == 0) diag = false; for (int i = 0; i < n; ++i) if (U[j][i] % P) { if (i > j) upper = false; if (i < j) lower = false; } }
         bool tri_ok = diag && (upper || lower);
-        if constexpr (Z2 && Opt::column_type == Column_types::VECTOR) { if (!tri_ok && had_removal && r.kf("C06-KF9")) tri_ok = true; }
         PH_REQ(tri_ok, "ident-U", "the exposed U is not triangular with a non-zero diagonal");
         Mat Rm(n, Vec(n, 0)), Um(n, Vec(n, 0));  // rows x cols
         for (int j = 0; j < n; ++j) for (int i = 0; i < n; ++i) { Rm[i][j] = R[j][i]; Um[i][j] = U[j][i]; }
         Mat Ut(n, Vec(n, 0)); for (int i = 0; i < n; ++i) for (int j = 0; j < n; ++j) Ut[i][j] = Um[j][i];
         bool f1 = model::mul(Rm, Ut, P) == B, f2 = model::mul(B, Um, P) == Rm, f3 = model::mul(Rm, Um, P) == B, f4 = model::mul(B, Ut, P) == Rm;
-        if constexpr (Z2 && Opt::column_type == Column_types::VECTOR) {
-          // known finding C06-KF9: lazily erased U entries of VECTOR columns come back when their row index is used again after a removal
-          if (!(f1 || f2 || f3 || f4) && had_removal) { r.count("probe.ru_vector_U_after_removal"); if (r.kf("C06-KF9")) f1 = true; }
-        }
+        if constexpr (Z2 && Opt::column_type == Column_types::VECTOR) { if (had_removal) r.count("probe.ru_vector_U_after_removal"); }
         PH_REQ(f1 || f2 || f3 || f4, "ident-U", "R and the exposed U do not factor the boundary matrix (none of B=R*U, B=R*U^T, B*U=R, B*U^T=R holds)");
         r.count(f3 ? "probe.factor.B=RU" : f1 ? "probe.factor.B=RUt" : f2 ? "probe.factor.BU=R" : "probe.factor.BUt=R");
       }
@@ -237,7 +233,7 @@ struct Exec {
       }
       if constexpr (FAM == RU && Z2 && Opt::column_type == Column_types::VECTOR) {
         // known finding C08-KF3: lazily erased entries of VECTOR columns are still seen by the raw iteration of update_representative_cycles
-        if (had_removal) { r.count("probe.cycles_after_removal_lazy_vector"); if (r.kf("C08-KF3")) { obs.tainted = true; r.skipped(); return; } }
+        if (had_removal) r.count("probe.cycles_after_removal_lazy_vector");
       }
       mp->update_representative_cycles();
       const auto& cycles = mp->get_representative_cycles();
@@ -375,7 +371,6 @@ struct Exec {
       const sim::Op& op = p.ops[i];
       r.begin_op((int)i, op);
       const std::string& nm = op.name;
-      if constexpr (FAM == RU && VINE && Z2 && Opt::column_type == Column_types::VECTOR) { if (had_removal && r.kf("C06-KF9")) { obs.tainted = true; r.skipped(); continue; } }
       if (nm == "ins") { do_insert(op); modified_since_barcode = true; }
       else if (nm == "rm_last") { do_remove_last(); modified_since_barcode = true; }
       else if (nm == "audit") {
